@@ -1082,10 +1082,7 @@ class Pregex():
         pre = __class__._to_pregex(pre)
         if pre._get_type() == _Type.Empty:
             return self
-        if _re.search(_re.sub(r"\s", "", r"""
-            (?<!\\)(?:\\\\)*(?<!\()(?:\?|\*|\+|\{,\d+\}|\{\d+,\}|\{\d+,\d+\})|
-            (?<!\\)(?:\\\\)*\\\((?:\?|\*|\+|\{,\d+\}|\{\d+,\}|\{\d+,\d+\})
-        """), str(pre)) is not None:
+        if not __class__.__has_fixed_width(str(pre)):
             raise _ex.NonFixedWidthPatternException(pre)
         return __class__(
             f"(?<={pre}){self._assert_conditional_group()}",
@@ -1113,10 +1110,7 @@ class Pregex():
         pre = __class__._to_pregex(pre)
         if pre._get_type() == _Type.Empty:
             return self
-        if _re.search(_re.sub(r"\s", "", r"""
-            (?<!\\)(?:\\\\)*(?<!\()(?:\?|\*|\+|\{,\d+\}|\{\d+,\}|\{\d+,\d+\})|
-            (?<!\\)(?:\\\\)*\\\((?:\?|\*|\+|\{,\d+\}|\{\d+,\}|\{\d+,\d+\})
-        """), str(pre)) is not None:
+        if not __class__.__has_fixed_width(str(pre)):
             raise _ex.NonFixedWidthPatternException(pre)
         return __class__(
             f"(?<={pre}){self._assert_conditional_group()}(?={pre})",
@@ -1163,10 +1157,7 @@ class Pregex():
         pre = __class__._to_pregex(pre)
         if pre._get_type() == _Type.Empty:
             raise _ex.EmptyNegativeAssertionException()
-        if _re.search(_re.sub(r"\s", "", r"""
-            (?<!\\)(?:\\\\)*(?<!\()(?:\?|\*|\+|\{,\d+\}|\{\d+,\}|\{\d+,\d+\})|
-            (?<!\\)(?:\\\\)*\\\((?:\?|\*|\+|\{,\d+\}|\{\d+,\}|\{\d+,\d+\})
-        """), str(pre)) is not None:
+        if not __class__.__has_fixed_width(str(pre)):
             raise _ex.NonFixedWidthPatternException(pre)
         pattern = f"(?<!{pre}){self._assert_conditional_group()}"
         return __class__(pattern, escape=False)
@@ -1192,10 +1183,7 @@ class Pregex():
         pre = __class__._to_pregex(pre)
         if pre._get_type() == _Type.Empty:
             raise _ex.EmptyNegativeAssertionException()
-        if _re.search(_re.sub(r"\s", "", r"""
-            (?<!\\)(?:\\\\)*(?<!\()(?:\?|\*|\+|\{,\d+\}|\{\d+,\}|\{\d+,\d+\})|
-            (?<!\\)(?:\\\\)*\\\((?:\?|\*|\+|\{,\d+\}|\{\d+,\}|\{\d+,\d+\})
-        """), str(pre)) is not None:
+        if not __class__.__has_fixed_width(str(pre)):
             raise _ex.NonFixedWidthPatternException(pre)
         pattern = f"(?<!{pre}){self._assert_conditional_group()}(?!{pre})"
         return __class__(pattern, escape=False)
@@ -1399,6 +1387,22 @@ class Pregex():
             source = self.__extract_text(source)
         return _re.finditer(self.__pattern, source, flags=self.__flags) \
             if self.__compiled is None else self.__compiled.finditer(source)
+
+
+    @staticmethod
+    def __has_fixed_width(pattern: str) -> bool:
+        '''
+        Returns ``True`` if the provided RegEx pattern can only match strings \
+        of one certain length, and as such can be used within a lookbehind \
+        assertion, else returns ``False``.
+
+        :param str pattern: The RegEx pattern that is to be examined.
+        '''
+        try:
+            _re.compile(f"(?<={pattern})", flags=__class__.__flags)
+        except _re.error as e:
+            return "fixed-width" not in str(e)
+        return True
 
 
     @staticmethod
